@@ -1506,7 +1506,27 @@ pub trait QueryBuilder:
         if right_paren {
             write!(sql, "(").unwrap();
         }
-        self.prepare_simple_expr(right, sql);
+        match right {
+            // The bounds of BETWEEN are operands of BETWEEN, not of a logical AND:
+            // each keeps its parentheses unless it binds tighter than BETWEEN itself.
+            SimpleExpr::Binary(lower, BinOper::And, upper) if drop_right_between_hack => {
+                for (i, bound) in [lower, upper].into_iter().enumerate() {
+                    if i > 0 {
+                        write!(sql, " AND ").unwrap();
+                    }
+                    let drop_bound_paren =
+                        self.inner_expr_well_known_greater_precedence(bound, &op_as_oper);
+                    if !drop_bound_paren {
+                        write!(sql, "(").unwrap();
+                    }
+                    self.prepare_simple_expr(bound, sql);
+                    if !drop_bound_paren {
+                        write!(sql, ")").unwrap();
+                    }
+                }
+            }
+            _ => self.prepare_simple_expr(right, sql),
+        }
         if right_paren {
             write!(sql, ")").unwrap();
         }
